@@ -3,8 +3,9 @@ Driver.Getters — model side of the C16 ties (not part of any proof).
 
 `getters list <gid> <opt|raw>`        → for every rule that gets accessor functions and every accessor:
                                           `rule <TAB> name <TAB> return type <TAB> path`, entries joined by " ## ";
-                                          type and path are the token text `Node::expand` / `Getter::collect`
-                                          produce, printed without white space (T-gen);
+                                          type and path are S-expressions of the getter tree (`pathSexp`, `typeSexp`),
+                                          compared STRUCTURALLY with what harness/getters_tool reads back from the
+                                          accessor functions the generator emits (T-gen);
 `getters run <gid> <opt|raw> <rule> <hex input>`
                                         → `v=ok end=… get=<name>:<refs>|…  st=<name>:<structured>|…  dir=<name>:<refs>|…`
                                           where `get` is `flatten (evalGetter t content)` for every accessor of the rule,
@@ -21,37 +22,34 @@ import Driver.Sexp
 open PestTyped
 namespace Driver.GetterCases
 
-/-! ### `expand` as text (white space removed) -/
+/-! ### the getter tree and its return type as S-expressions (structure only: harness/getters_tool reads the
+same structure back from the accessor functions the generator emits, whatever their token-level spelling) -/
 
-def optTy : String := "::pest_typed::re_exported::Option"
-def vecTy : String := "::pest_typed::re_exported::Vec"
+def flag (b : Bool) : String := if b then "1" else "0"
 
-/-- The path expression. -/
-partial def pathText : GNode → String
-  | .rule _ => "res"
-  | .content g => "{letres=&res.content;" ++ pathText g ++ "}"
-  | .sequenceI i g => "{letres=&res.content." ++ toString i ++ ".matched;" ++ pathText g ++ "}"
-  | .optional flat g =>
-    "{letres=res.as_ref().map(|res|" ++ pathText g ++ ")" ++ (if flat then ".flatten()" else "") ++ ";res}"
-  | .choiceI i flat g =>
-    "{letres=res._" ++ toString i ++ "().map(|res|" ++ pathText g ++ ")" ++ (if flat then ".flatten()" else "") ++ ";res}"
-  | .contents g =>
-    "{letres=res.content.iter().map(|res|{letres=&res.matched;" ++ pathText g ++ "}).collect::<" ++ vecTy ++ "<_>>();res}"
-  | .tuple gs => "{letres=(" ++ ",".intercalate (gs.map pathText) ++ ");res}"
+/-- `P ::= (rule) | (content P) | (seq I P) | (choice I F P) | (opt F P) | (rep P) | (tuple P …)`. -/
+partial def pathSexp : GNode → String
+  | .rule _ => "(rule)"
+  | .content g => "(content " ++ pathSexp g ++ ")"
+  | .sequenceI i g => "(seq " ++ toString i ++ " " ++ pathSexp g ++ ")"
+  | .optional flat g => "(opt " ++ flag flat ++ " " ++ pathSexp g ++ ")"
+  | .choiceI i flat g => "(choice " ++ toString i ++ " " ++ flag flat ++ " " ++ pathSexp g ++ ")"
+  | .contents g => "(rep " ++ pathSexp g ++ ")"
+  | .tuple gs => "(tuple " ++ " ".intercalate (gs.map pathSexp) ++ ")"
 
-/-- The return type, with the generic arguments of the rule structs left out (`&'s…::r#x`). -/
-partial def typeText : GNode → String
-  | .rule n => "&'ssuper::super::rules::r#" ++ n
-  | .content g => typeText g
-  | .sequenceI _ g => typeText g
-  | .optional flat g => if flat then typeText g else optTy ++ "::<" ++ typeText g ++ ">"
-  | .choiceI _ flat g => if flat then typeText g else optTy ++ "::<" ++ typeText g ++ ">"
-  | .contents g => vecTy ++ "::<" ++ typeText g ++ ">"
-  | .tuple gs => "(" ++ ",".intercalate (gs.map typeText) ++ ")"
+/-- The return type `expand` builds: `T ::= (ref NAME) | (opt T) | (vec T) | (tuple T …)`. -/
+partial def typeSexp : GNode → String
+  | .rule n => "(ref " ++ n ++ ")"
+  | .content g => typeSexp g
+  | .sequenceI _ g => typeSexp g
+  | .optional flat g => if flat then typeSexp g else "(opt " ++ typeSexp g ++ ")"
+  | .choiceI _ flat g => if flat then typeSexp g else "(opt " ++ typeSexp g ++ ")"
+  | .contents g => "(vec " ++ typeSexp g ++ ")"
+  | .tuple gs => "(tuple " ++ " ".intercalate (gs.map typeSexp) ++ ")"
 
 def listGetters (pg : PGrammar) : String :=
   " ## ".intercalate (pg.flatMap fun r =>
-    (ruleGetters r).map fun (x, t) => r.name ++ "\t" ++ x ++ "\t" ++ typeText t ++ "\t" ++ pathText t)
+    (ruleGetters r).map fun (x, t) => r.name ++ "\t" ++ x ++ "\t" ++ typeSexp t ++ "\t" ++ pathSexp t)
 
 /-! ### running the accessors of a rule -/
 
